@@ -277,37 +277,75 @@ def _bv_of_bytes(pieces, little=True):
     return z3.Concat(*parts) if len(parts) > 1 else parts[0]
 
 
-def m_pack(fmt, *vals):
-    _used(f"struct.pack({fmt!r})")
-    if fmt == "B":
-        (v,) = vals
+_INT_CODES = {"B": (1, False), "b": (1, True), "H": (2, False), "h": (2, True), "I": (4, False), "i": (4, True),
+              "L": (4, False), "l": (4, True), "Q": (8, False), "q": (8, True)}
+
+
+def _parse_fmt(fmt):
+    """(little, [codes]) for the struct formats E1 models: an optional byte-order prefix followed by integer/float
+    codes with optional repeat counts.  Without a prefix (native mode) only formats that need no alignment padding
+    are accepted: a single code, or single-byte codes only."""
+    order = "@"
+    body = fmt
+    if fmt[:1] in "<>!=@":
+        order, body = fmt[0], fmt[1:]
+    codes, num = [], ""
+    for ch in body:
+        if ch.isdigit():
+            num += ch
+            continue
+        if ch.isspace():
+            continue
+        if ch not in _INT_CODES and ch not in "fd":
+            raise Unsupported(f"struct format {fmt!r}")
+        codes += [ch] * (int(num) if num else 1)
+        num = ""
+    if num or not codes:
+        raise Unsupported(f"struct format {fmt!r}")
+    if order == "@":
+        if len(codes) > 1 and any(c not in "Bb" for c in codes):
+            raise Unsupported(f"struct format {fmt!r} (native alignment)")
+        if any(c in "Ll" for c in codes):
+            raise Unsupported(f"struct format {fmt!r} (native long)")
+        little = True  # x86-64 / aarch64 little endian; validated against CPython on every path witness
+    else:
+        little = order == "<"
+    return little, codes
+
+
+def _pack_one(code, v, little):
+    if code in _INT_CODES:
+        size, signed = _INT_CODES[code]
         if isinstance(v, SBool):
             v = SInt(zint(v))
-        if isinstance(v, SFloat):
+        if isinstance(v, (SFloat, float)):
             raise struct.error("required argument is not an integer")
-        if (v < 0) or (v > 255):
-            raise struct.error("ubyte format requires 0 <= number <= 255")
-        return SBytes([v])
-    if fmt in ("<f", "<d", ">f", ">d"):
-        (v,) = vals
-        if not isinstance(v, (int, float, SInt, SFloat, SBool)) or isinstance(v, bool) and False:
-            raise struct.error("required argument is not a float")
-        f = SFloat.lift(v if not isinstance(v, SBool) else SInt(zint(v)))
-        little = fmt[0] == "<"
-        if fmt[1] == "d":
-            bv = z3.fpToIEEEBV(f.e)
-            return SBytes(_bytes_of_bv(bv, 8, little))
-        f32 = z3.fpFPToFP(RNE, f.e, F32)
-        if cur().fork(z3.And(z3.fpIsInf(f32), z3.Not(z3.fpIsInf(f.e)))):
-            raise OverflowError("float too large to pack with f format")
-        bv = z3.fpToIEEEBV(f32)
-        return SBytes(_bytes_of_bv(bv, 4, little))
-    if fmt in (">I", "<I"):
-        (v,) = vals
-        if (v < 0) or (v > 0xFFFFFFFF):
-            raise struct.error("argument out of range")
-        return SBytes(_bytes_of_bv(zint(v), 4, fmt[0] == "<"))
-    raise Unsupported(f"struct.pack format {fmt!r}")
+        lo, hi = (-(1 << (8 * size - 1)), (1 << (8 * size - 1)) - 1) if signed else (0, (1 << (8 * size)) - 1)
+        if (v < lo) or (v > hi):
+            raise struct.error(f"'{code}' format requires {lo} <= number <= {hi}")
+        if size == 1 and not signed:
+            return [v if isinstance(v, SInt) else int(v)]
+        return _bytes_of_bv(zint(v), size, little)
+    if not isinstance(v, (int, float, SInt, SFloat, SBool)):
+        raise struct.error("required argument is not a float")
+    f = SFloat.lift(v if not isinstance(v, SBool) else SInt(zint(v)))
+    if code == "d":
+        return _bytes_of_bv(z3.fpToIEEEBV(f.e), 8, little)
+    f32 = z3.fpFPToFP(RNE, f.e, F32)
+    if cur().fork(z3.And(z3.fpIsInf(f32), z3.Not(z3.fpIsInf(f.e)))):
+        raise OverflowError("float too large to pack with f format")
+    return _bytes_of_bv(z3.fpToIEEEBV(f32), 4, little)
+
+
+def m_pack(fmt, *vals):
+    _used(f"struct.pack({fmt!r})")
+    little, codes = _parse_fmt(fmt)
+    if len(codes) != len(vals):
+        raise struct.error(f"pack expected {len(codes)} items for packing (got {len(vals)})")
+    out = []
+    for c, v in zip(codes, vals):
+        out += _pack_one(c, v, little)
+    return SBytes(out)
 
 
 def m_unpack(fmt, data):
@@ -315,17 +353,26 @@ def m_unpack(fmt, data):
     data = SBytes.lift(data)
     if data.has_blob():
         raise Unsupported("unpack of opaque bytes")
-    size = struct.calcsize(fmt)
+    little, codes = _parse_fmt(fmt)
+    size = sum(_INT_CODES[c][0] if c in _INT_CODES else (4 if c == "f" else 8) for c in codes)
     if len(data.pieces) != size:
         raise struct.error(f"unpack requires a buffer of {size} bytes")
-    if fmt == "B":
-        return (data.pieces[0] if isinstance(data.pieces[0], SInt) else data.pieces[0],)
-    if fmt in ("<f", "<d", ">f", ">d"):
-        bv = _bv_of_bytes(data.pieces, fmt[0] == "<")
-        if fmt[1] == "d":
-            return (SFloat(z3.fpBVToFP(bv, F64)),)
-        return (SFloat(z3.fpFPToFP(RNE, z3.fpBVToFP(bv, F32), F64)),)
-    raise Unsupported(f"struct.unpack format {fmt!r}")
+    out, pos = [], 0
+    for c in codes:
+        n = _INT_CODES[c][0] if c in _INT_CODES else (4 if c == "f" else 8)
+        ps = data.pieces[pos:pos + n]
+        pos += n
+        if c in _INT_CODES:
+            signed = _INT_CODES[c][1]
+            if n == 1 and not signed:
+                out.append(ps[0])
+                continue
+            bv = _bv_of_bytes(ps, little)
+            out.append(SInt(z3.simplify(z3.SignExt(WIDTH - 8 * n, bv) if signed else z3.ZeroExt(WIDTH - 8 * n, bv))))
+        else:
+            bv = _bv_of_bytes(ps, little)
+            out.append(SFloat(z3.fpBVToFP(bv, F64)) if c == "d" else SFloat(z3.fpFPToFP(RNE, z3.fpBVToFP(bv, F32), F64)))
+    return tuple(out)
 
 
 # ------------------------------------------------------------------------
